@@ -179,6 +179,7 @@ package car
 //@   let parsed, perr := call[selector.ParseSelector#0]
 //@   let nd, lerr := call[LinkSystem.Load#0]
 //@   call[selector.ParseSelector#0] assert the_dags_own_selector [C15]: ref(arg0) == ref(carDag.Selector)
+//@   call[Progress.WalkAdv#0] assert the_link_budget_is_the_configured_maximum [C15]: ite(sct.sc.opts.MaxTraversalLinks < 9223372036854775807, arg0.Budget != nil && arg0.Budget.LinkBudget == sct.sc.opts.MaxTraversalLinks && arg0.Budget.NodeBudget == 9223372036854775807, arg0.Budget == nil)
 //@   call[Progress.WalkAdv#0] assert visits_a_link_once_when_asked_to [C15]: arg0.Cfg.LinkVisitOnlyOnce == sct.sc.opts.TraverseLinksOnlyOnce
 //@   call[LinkSystem.Load#0] assert through_the_traversers_accounting_link_system [C15]: ref(arg0) == ref(&sct.lsys)
 //@   call[Progress.WalkAdv#0] assert from_the_loaded_root_with_the_parsed_selector [C15]: ref(arg1) == ref(nd) && ref(arg2) == ref(parsed)
